@@ -22,6 +22,7 @@ EXPLANATION = (
     "rejected move_to / add_agent / moves of agents without a position write nothing. R-PAIR: leaving the world "
     "detaches the position. Decides containment and exactness symbolically for all extents and histories; not "
     "floating-point rounding inside the bounds.")
+EXPLANATION += (' wrap_env is forwarded unchanged by every world subclass constructor and stored as given; clamps written as statements or conditional expressions have the min/max normal form; a removal path that found no PositionComponent on the leaving agent has nothing to detach.')
 ASSUMPTIONS = ["extents are 0 or >= 1 and finite; grid coordinates are integers (quantifier)",
                "Python's % with positive modulus lies in [0, modulus) for ints and [0, modulus] for floats",
                "user code does not write position fields directly"]
